@@ -130,8 +130,10 @@ def declActs (d : Decl) (v : String) : List Act :=
    | some f => if v ≠ f then [Act.ev (.fixedMismatch d.name)] else []
    | none => []) ++ [Act.post d.kind v]
 
-/-- one iteration of the loop attributes.py:693-732 (no wildcard in the group) -/
-def attrActs (isXsi : String → Bool) (xsi ds : List Decl) (nv : String × String) : List Act :=
+/-- one iteration of the loop attributes.py:703-754 (no wildcard in the group).  `inj`: the pair was injected
+    from a value constraint (the instance omits the attribute); an injected xs:QName literal belongs to the
+    schema and is decoded with `'skip'` (attributes.py:745-751): no post-decoding, no event. -/
+def attrActs (isXsi : String → Bool) (xsi ds : List Decl) (inj : Bool) (nv : String × String) : List Act :=
   match lookup nv.1 ds with
   | none =>
     if isXsi nv.1 then
@@ -140,7 +142,8 @@ def attrActs (isXsi : String → Bool) (xsi ds : List Decl) (nv : String × Stri
       | none => [.ev (.notXsi nv.1)]
     else [.ev (.notAllowed nv.1)]
   | some d =>
-    (if d.use = .prohibited then [Act.ev (.prohibited nv.1)] else []) ++ declActs d nv.2
+    (if d.use = .prohibited then [Act.ev (.prohibited nv.1)] else []) ++
+      (if inj = true ∧ d.kind = .qname then [] else declActs d nv.2)
 
 def missingActs (ds : List Decl) (obj : Attrs) : List Act :=
   (ds.filter (fun d => d.use = .required && !hasKey d.name obj)).map (fun d => .ev (.missing d.name))
@@ -148,7 +151,8 @@ def missingActs (ds : List Decl) (obj : Attrs) : List Act :=
 /-- XsdAttributeGroup.raw_decode, parameterised by the function that selects the processed attributes -/
 def groupActsWith (eff : Bool → List Decl → Attrs → Attrs) (isXsi : String → Bool) (ud : Bool)
     (xsi ds : List Decl) (obj : Attrs) : List Act :=
-  missingActs ds obj ++ Act.reset :: (eff ud ds obj).flatMap (attrActs isXsi xsi ds)
+  missingActs ds obj ++ Act.reset ::
+    (eff ud ds obj).flatMap (fun nv => attrActs isXsi xsi ds (!hasKey nv.1 obj) nv)
 
 /-- elements.py:773-788 followed by the decoding of the text -/
 def textActs (ud : Bool) (td : TextDecl) (text : String) : List Act :=
